@@ -15,7 +15,7 @@ from vf.sem import pyeval
 ID = "C05"
 RULE = (
     "Generated modules with 1-3 helpers (def, def with docstring, name = lambda, lambda handed through a call, def built by a factory with free "
-    "names, defs that are NOT a single return (annotated assignment / two statements) or have a keyword-only parameter; 1-3 parameters of kind "
+    "names, defs that are NOT a single return (annotated assignment / two statements) or have a keyword-only parameter (def and lambda helpers), positional-only parameters (a `/` in the parameter list); 1-3 parameters of kind "
     "number / sequence / element, optional defaults) whose bodies are drawn from: a bare parameter, the second parameter, "
     "unary/arithmetic/conditional over parameters, attribute of a parameter, a constant of the module, nested lambdas and comprehensions re-using a "
     "parameter name, an explicitly called inner lambda, calls to earlier helpers (1-3 deep), tuples; called from a lambda "
@@ -155,7 +155,11 @@ def _case(draw):
             else:
                 closure = {"kind": "fn", "name": f"g{i}", "inner": "v * 100", "outer": "v - 7"}
                 body = f"g{i}({body})"
-        helpers.append({"name": f"h{i}", "style": style, "params": params, "body": body, "ret": want, "closure": closure})
+        # positional-only parameters: a `/` after the first k parameters (such a helper is called positionally)
+        slash = draw(st.integers(1, n)) if draw(st.integers(0, 5)) == 0 else None
+        if style == "def" and want == "N" and closure is None and draw(st.integers(0, 7)) == 0:
+            style = "lambda-kwonly"  # a recoverable lambda helper with a defaulted keyword-only parameter
+        helpers.append({"name": f"h{i}", "style": style, "params": params, "body": body, "ret": want, "closure": closure, "slash": slash})
     p = draw(st.sampled_from(["e", "e", "j", "a", "x"]))
     inner = draw(st.sampled_from(["j", "a", "x", "b", "v"]))
     items = []
@@ -174,6 +178,8 @@ def _case(draw):
                 a = p
             args.append([pn, a, d])
         shape = draw(st.integers(0, 4))
+        if h.get("slash"):
+            shape = 0
         while args and args[-1][2] is not None and draw(st.booleans()):
             args = args[:-1]  # omit a trailing defaulted parameter (some, all or none of them)
         if shape == 0 or len(args) == 0:
@@ -186,7 +192,7 @@ def _case(draw):
             call = ", ".join([args[0][1]] + [f"{n}={a}" for n, a, _ in args[1:]])
         else:
             call = ", ".join(a for _, a, _ in args)
-        if h["style"] == "def-kwonly" and draw(st.booleans()):
+        if h["style"] in ("def-kwonly", "lambda-kwonly") and draw(st.booleans()):
             call = (call + ", " if call else "") + f"kw_={draw(st.integers(1, 4))}"
         expr = f"{h['name']}({call})"
         if in_nested:
@@ -218,7 +224,10 @@ def strategy(tier):
 def module_text(case):
     lines = ["def _keep(f):\n    return f"]
     for h in case["helpers"]:
-        ps = ", ".join(n if d is None else f"{n}={d}" for n, _, d in h["params"])
+        plist = [n if d is None else f"{n}={d}" for n, _, d in h["params"]]
+        if h.get("slash"):
+            plist.insert(h["slash"], "/")
+        ps = ", ".join(plist)
         if h.get("closure") and h["closure"]["kind"] == "modconst":
             c = h["closure"]
             hd = f"{h['name']} = lambda {ps}: {h['body']}" if h["style"] == "lambda" else f"def {h['name']}({ps}):\n    return {h['body']}"
@@ -234,6 +243,8 @@ def module_text(case):
             lines.append(f"def {h['name']}({ps}):\n    {a0}: float = abs({a0}) + 1\n    return {h['body']}")
         elif h["style"] == "def-two-lines":
             lines.append(f"def {h['name']}({ps}):\n    t_ = {h['body']}\n    return t_ * 2")
+        elif h["style"] == "lambda-kwonly":
+            lines.append(f"{h['name']} = _keep(lambda {ps}, *, kw_=3: ({h['body']}) + kw_)")
         elif h["style"] == "def-kwonly":
             lines.append(f"def {h['name']}({ps}, *, kw_=3):\n    return ({h['body']}) + kw_")
         elif h.get("closure"):
